@@ -9,17 +9,38 @@ ASSUME = ["virtual clock: conns.go's time and math/rand imports are redirected (
           "inputs carrying material derived from a secret registered on the probed phantom (bit-flipped genuine flights) may reach the documented non-draining sleep path; the check records which inputs do and requires that no other input does"]
 
 
+def flights_dir(fresh):
+    """genuine client flights are freshly randomised by the real client code: all shards of one run share one set"""
+    import os
+    import shutil
+    d = os.path.join(vlib.WORK, "c03", "flights")
+    if fresh:
+        shutil.rmtree(d, ignore_errors=True)
+    os.makedirs(d, exist_ok=True)
+    return d
+
+
 def run(tier, seed, t0):
     w = appcommon.build()
     budget = 900 if tier == "thorough" else 150
     n = 16
     args = [["-tier", tier, "-budget", str(budget), "-seed", str(seed), "-shard", str(i), "-shards", str(n)] for i in range(n)]
-    res = vlib.run_workers(w, args, timeout=budget + 180, env={"VERIF_WORKER": "c03"})
+    res = vlib.run_workers(w, args, timeout=budget + 180, env={"VERIF_WORKER": "c03", "VERIF_FLIGHTS": flights_dir(True)})
     vlib.finish(PID, tier, "exploration", res, t0, ASSUME,
                 "complete cross product probe streams (empty; noise of every threshold length up to 16 KiB; every static prefix + noise to MinLen-1/MinLen/MinLen+1; TLS/HTTP/SSH look-alikes; genuine flights registered on another phantom; genuine flights with one bit flipped per structural region or truncated) x segmentations (whole; every 1-cut and 2-cut over the threshold set and +-1; byte-at-a-time) x inter-segment delays {0, 1 s, 4.9 s} x registry {none, unvalidated only, one valid per transport, three mixed} x deadline draw {0, 4999} through the real handleNewTCPConn; non-trivial = distinct (registry, stream, segmentation)",
                 seed=seed)
 
 
 def replay(path):
-    print("C03 cases are deterministic; re-run ./vcheck C03")
-    sys.exit(2)
+    w = appcommon.build()
+    out = vlib.run_worker(w, ["-replay", path], 300, env={"VERIF_WORKER": "c03"})
+    if "error" in out:
+        raise vlib.HarnessError(out["error"])
+    vs = out["results"][0].get("violations") or []
+    for v in vs:
+        print("  key=%s: %s" % (v["key"], v["what"][:400]))
+    if vs:
+        print("VIOLATION property=%s replay=%s" % (PID, path))
+        sys.exit(1)
+    print("replay: no violation")
+    sys.exit(0)
